@@ -5,8 +5,9 @@
 (*                                                                         *)
 (* Family A (the table part): host h1 with every set of <= MaxKeys keys    *)
 (* out of six key forms, every assignment of credential kinds to them;     *)
-(* host h2 with no key or one URL key; no helper / a default store whose   *)
-(* binary is missing / an empty per-host helper next to a working store.   *)
+(* host h2 with no key or one URL key, no helper / a default store whose   *)
+(* binary is missing / an empty per-host helper next to a working store    *)
+(* (four combinations of these).                                           *)
 (* Family B (the helper part): a few tables x per-host helper for h1       *)
 (* {absent, "", A} x default store {"", B} x what A and B do (5 x 5).      *)
 (***************************************************************************)
@@ -57,14 +58,18 @@ FormSeqs == {<<>>} \cup {<<a>> : a \in 1..NForms}
             \cup (IF MaxKeys >= 3 THEN {<<a, b, c>> : a \in 1..NForms, b \in 1..NForms, c \in 1..NForms} ELSE {})
 Increasing(s) == \A i \in 1..Len(s) : i < Len(s) => s[i] < s[i + 1]
 
-H2Auths == {<<>>, <<Entry(Form(2, H2), "up", 9)>>}
-HelperSetups == {[store |-> "", ch |-> <<>>, hs |-> Helpers("creds", "creds")],
-                 [store |-> "B", ch |-> <<>>, hs |-> Helpers("creds", "nobinary")],
-                 [store |-> "B", ch |-> <<[host |-> H1, helper |-> ""]>>, hs |-> Helpers("creds", "creds")]}
+HelperSetups == <<[store |-> "", ch |-> <<>>, hs |-> Helpers("creds", "creds")],
+                  [store |-> "B", ch |-> <<>>, hs |-> Helpers("creds", "nobinary")],
+                  [store |-> "B", ch |-> <<[host |-> H1, helper |-> ""]>>, hs |-> Helpers("creds", "creds")]>>
 Auths1(fs, kd) == [j \in 1..Len(fs) |-> Entry(Form(fs[j], H1), kd[j], j)]
+\* h2's key and the helper setup are varied together (not as a product): h2's key does not
+\* interact with h1's, it only lengthens the visiting orders
+Variants == {[a2 |-> <<>>, hs |-> 1], [a2 |-> <<Entry(Form(2, H2), "up", 9)>>, hs |-> 1],
+             [a2 |-> <<Entry(Form(2, H2), "up", 9)>>, hs |-> 2], [a2 |-> <<>>, hs |-> 3]}
 FamilyAOf(fs) ==
-  {[auths |-> Auths1(fs, kd) \o a2, credsStore |-> hs.store, credHelpers |-> hs.ch, helpers |-> hs.hs] :
-      kd \in [1..MaxKeys -> Kinds], a2 \in H2Auths, hs \in HelperSetups}
+  {[auths |-> Auths1(fs, kd) \o v.a2, credsStore |-> HelperSetups[v.hs].store, credHelpers |-> HelperSetups[v.hs].ch,
+    helpers |-> HelperSetups[v.hs].hs] :
+      kd \in [1..MaxKeys -> Kinds], v \in Variants}
 
 Tables0 == {<<>>,
             <<Entry(H1, "up", 1)>>,
@@ -110,7 +115,7 @@ ASSUME UrlHost(Form(2, H1)) = H1 /\ UrlHost(Form(3, H1)) = H1 /\ UrlHost(Form(4,
 
 \* --------------------------------------------------------------- export (A)
 \* is the host table the decode builds sensitive to the visiting order?
-OrderSensitive(c) == LoadOk(c) /\ Cardinality({BuildTable(c, p) : p \in Perms(Len(c.auths))}) > 1
+OrderSensitive(c) == LoadOk(c) /\ Cardinality(Tables(c)) > 1
 HostSeq == <<H1, H2, H3, Form(5, H1)>>
 ExportCase(c) ==
   [cfg |-> c, hosts |-> HostSeq, loadok |-> LoadOk(c), sens |-> OrderSensitive(c),
